@@ -124,3 +124,9 @@ def _v25(repo, mod):
 def _v50(repo, mod):
     from sa.selftest.harness import text_edit
     return text_edit(mod, "and node.value.lineno == lambda_lineno", "and node.lineno == lambda_lineno")
+
+
+@variant("C27", "enum-methods-not-collected", "pynguin.analyses.module", "C27.members", "only inspect.getmembers, which finds nothing on enum classes (the repaired defect)")
+def _v60(repo, mod):
+    from sa.selftest.harness import text_edit
+    return text_edit(mod, "        if isinstance(type_info.raw_type, enum.EnumMeta):", "        if False:")
